@@ -1,9 +1,16 @@
 import Driver.Expr
 import Model.IdManager
+import Model.Sig
 open Lean Drv Expr Engine DrvExpr
 
 def parseDecl (j : Json) : Except String (IdM.Decl String Float) := do
   pure { name := ← getStr j "name", fixed := ← getBool j "fixed", init := ← getFloat j "init" }
+
+/-- `{"token": bits, …}`: the reading of decimal text as a double (Python `float`, standing for
+the engine's `std::stod`) is supplied, not modelled -/
+def numTable (j : Json) : Except String (List Char → Option Float) := do
+  let tbl ← parsePairs j
+  pure fun s => tbl.lookup (String.ofList s)
 
 def handle (j : Json) : Except String Json := do
   let op ← getStr j "op"
@@ -43,6 +50,26 @@ def handle (j : Json) : Except String Json := do
     match (load [] ls).find root with
     | none => pure (Json.mkObj [("err", jStr "dangling")])
     | some f => pure (resJson (f ee))
+  | "parsetext" =>
+    -- the REAL signature text read by the model of the engine's reader (`Sig.parseLine`)
+    let ls ← strList (← j.getObjVal? "text")
+    let numOf ← numTable (← j.getObjVal? "nums")
+    pure (jArr (ls.map fun f =>
+      match Sig.parseLine numOf f.toList with
+      | some l => lineJson l
+      | none => Json.null))
+  | "runtext" =>
+    -- … then loaded and evaluated
+    let ls ← strList (← j.getObjVal? "text")
+    let numOf ← numTable (← j.getObjVal? "nums")
+    let ee ← parseEE (← j.getObjVal? "ee")
+    let root ← getNat j "root"
+    match Sig.loadText numOf [] (ls.map String.toList) with
+    | none => pure (Json.mkObj [("err", jStr "unreadable")])
+    | some st =>
+      match st.find root with
+      | none => pure (Json.mkObj [("err", jStr "dangling")])
+      | some f => pure (resJson (f ee))
   | "prepare" =>
     let decls ← (← getArr j "decls").toList.mapM parseDecl
     let cols ← strList (← j.getObjVal? "cols")
